@@ -109,6 +109,8 @@ ChooseBranch(brs, v, names, o) ==
           IF Conf(brs[i], v.it[2], names, o, TRUE) THEN [st |-> "ok", i |-> i, v |-> v.it[2]]
           ELSE [st |-> "unspec", why |-> "hint-nonconf"]   \* a hinted branch the value does not conform to: outside the domain
   ELSE IF o.tuples /\ v.p = "tuple" THEN [st |-> "unspec", why |-> "tuple"]   \* a tuple that is not a (name, value) pair
+  ELSE IF v.p = "datetime" /\ \E i \in 1..Len(brs) : LtOf(Deref(brs[i], names)) = "date"
+       THEN [st |-> "unspec", why |-> "datetime-date"]   \* a Python datetime is also a date: which of the two branches it belongs to is not pinned
   ELSE IF v.p \in {"bytes", "bytearray"} /\ \E i \in 1..Len(brs) : Deref(brs[i], names).k = "array"
        THEN [st |-> "unspec", why |-> "bytes-array"]     \* Python's Sequence ABC makes b"ab" look like [97, 98] (DESIGN D.2)
   ELSE
@@ -131,14 +133,17 @@ ChooseBranch(brs, v, names, o) ==
 \* ---- what reading back returns (C01 normalisation) ------------------------------------
 \* [ok |-> TRUE, v] | [ok |-> FALSE]  (FALSE: outside the domain, e.g. unspecified union choice, float overflow)
 \* named = TRUE: what a reader with return_named_type=True returns - (full name, value) pairs at union positions whose branch is a named type
-RECURSIVE NormN(_, _, _, _, _)
-Norm(t, v, names, o) == NormN(t, v, names, o, FALSE)
+\* mode: [named |-> BOOLEAN, json |-> BOOLEAN]; json = TRUE: numbers as the JSON text carries them (no binary32 rounding, ints stay ints)
+RECURSIVE NormM(_, _, _, _, _)
+NormN(t, v, names, o, named) == NormM(t, v, names, o, [named |-> named, json |-> FALSE])
+Norm(t, v, names, o) == NormM(t, v, names, o, [named |-> FALSE, json |-> FALSE])
+NormJ(t, v, names, o) == NormM(t, v, names, o, [named |-> FALSE, json |-> TRUE])
 NormSeq(t, xs, names, o, named) ==
-  LET rs == MapSeq(LAMBDA x : NormN(t, x, names, o, named), xs) IN
+  LET rs == MapSeq(LAMBDA x : NormM(t, x, names, o, named), xs) IN
   IF \A i \in 1..Len(xs) : rs[i].ok THEN [ok |-> TRUE, vs |-> MapSeq(LAMBDA r : r.v, rs)] ELSE [ok |-> FALSE]
 FieldSrc(f, v) == IF HasKey(v, f.name) THEN ValAt(v, f.name) ELSE IF f.hasdef THEN DefVal(f.def) ELSE VNone
 ToDouble(v) == IF v.p = "int" THEN IntToDouble(IOf(v)) ELSE [ok |-> TRUE, f |-> FOf(v)]
-NormN(t0, v0, names, o, named) ==
+NormM(t0, v0, names, o, named) ==
   LET t == Deref(t0, names)
       pr == Prep(t, v0)
       v == pr.v
@@ -148,6 +153,7 @@ NormN(t0, v0, names, o, named) ==
   IN IF pr.st # "ok" THEN bad ELSE
   CASE t.k \in {"null", "boolean", "int", "long", "string", "enum", "fixed"} -> ok(v)
     [] t.k = "bytes" -> ok(VBytes(v.by))
+    [] t.k \in {"double", "float"} /\ named.json -> ok(v)
     [] t.k = "double" -> LET d == ToDouble(v) IN IF d.ok THEN ok(VFloat(d.f)) ELSE bad
     [] t.k = "float" -> LET d == ToDouble(v) IN
                         IF ~d.ok THEN bad
@@ -155,13 +161,13 @@ NormN(t0, v0, names, o, named) ==
     [] t.k = "array" -> LET r == NormSeq(t.items, v.it, names, o, named) IN IF r.ok THEN ok(VList(r.vs)) ELSE bad
     [] t.k = "map" -> LET r == NormSeq(t.values, v.vs, names, o, named) IN IF r.ok THEN ok(VDict(v.ks, r.vs)) ELSE bad
     [] t.k = "record" ->
-         LET rs == MapSeq(LAMBDA f : NormN(f.type, FieldSrc(f, v), names, o, named), t.fields) IN
+         LET rs == MapSeq(LAMBDA f : NormM(f.type, FieldSrc(f, v), names, o, named), t.fields) IN
          IF \A i \in 1..Len(t.fields) : rs[i].ok
          THEN ok(VDict(MapSeq(LAMBDA f : VStr(f.name), t.fields), MapSeq(LAMBDA r : r.v, rs)))
          ELSE bad
     [] t.k = "union" -> LET c == ChooseBranch(t.br, v, names, o) IN
                         IF c.st # "ok" THEN bad
-                        ELSE LET r == NormN(t.br[c.i], c.v, names, o, named)
+                        ELSE LET r == NormM(t.br[c.i], c.v, names, o, named)
                                  b == Deref(t.br[c.i], names)
-                             IN IF r.ok /\ named /\ IsNamedKind(b.k) THEN [ok |-> TRUE, v |-> VTuple(<< VStr(b.name), r.v >>)] ELSE r
+                             IN IF r.ok /\ named.named /\ IsNamedKind(b.k) THEN [ok |-> TRUE, v |-> VTuple(<< VStr(b.name), r.v >>)] ELSE r
 =============================================================================
